@@ -259,6 +259,12 @@ def r4(R, repo):
     enum = [x for x in ast.walk(ki[0].stmt.value) if isinstance(x, ast.Call) and astu.call_name(x) == 'enumerate' and x.args]
     srcs = [e_ for x in enum for e_ in evid.expand(fp, x.args[0]) if isinstance(e_, ast.AST)]
     sorted_src = [e_ for e_ in srcs if isinstance(e_, ast.Call) and astu.call_name(e_) == 'sorted']
+    # only a sorted(...) binding that is executed *before* key_index is computed matters (nodes = sorted(nodes) afterwards is the sort itself)
+    def _before(e_):
+      st_ = astu.enclosing_stmt(e_)
+      nds = cfp.nodes_for(st_) if st_ is not None else []
+      return not nds or any(ki[0] in cfp.reach([nd_]) for nd_ in nds)
+    sorted_src = [e_ for e_ in sorted_src if _before(e_)]
     sort_nodes = [n for n in cfp.nodes if n.kind == 'stmt' and any(isinstance(x, ast.Call) and astu.call_tail(x) == 'sort' and isinstance(x.func, ast.Attribute) and enum and astu.src(x.func.value) == astu.src(enum[0].args[0]) for x in ast.walk(n.stmt))]
     after_sort = any(ki[0] in cfp.reach([sn]) for sn in sort_nodes)
     R.judge(bool(enum), not sorted_src and not after_sort, key, (fp, ki[0].stmt), '_flatten_pytree computes key_index from the already sorted children (`%s`): _unflatten_pytree then re-orders by an identity permutation and hands the '
